@@ -10,6 +10,7 @@ STRENGTHENED = {
  "C11-m2": "missed at first (string domain had no control characters); the string domains gained U+001F, DEL, NUL and a non-printable rune above U+FFFF",
  "C11-m3": "missed at first (heap round trips used ints/strings, whose ties are indistinguishable); C11 gained a heap target with (P,ID) items that compares the exact Pop/Dequeue sequence after the round trip",
  "C15-m3": "missed at first (the check's own invariant calls ran String() before the fingerprint baseline was taken); the invariant observers are now bracketed by fingerprints themselves",
+ "C01-m3": "missed at first (the harness only used NewWith with its own comparators on int keys); C01 gained targets that use the default constructors (New) on float64 keys including NaN, the two zeros and the infinities",
  "C04-m3": "missed at first (9-value domain never reached a 10-member tree); C04 gained a 48-value-domain target with long histories",
 }
 only = sys.argv[1:]
